@@ -564,6 +564,7 @@ def run(ctx) -> None:
              f"load_npz's glob/prefix-strip/filter does not match the writer's file names ({why}; property filter on the prefix: {sw_ok})", stmt="prefix")
     LS.inline_helpers = False
     check_pointgroup_serialisation(ctx)
+    check_reduced_shifts(ctx)
     from ..taint import returning_listing_order
     ot = OrderTaint(load.node, LS.du, extra_sources=returning_listing_order(idx, [SR]))
     for s in ot.sources:
@@ -573,6 +574,41 @@ def run(ctx) -> None:
     r4.check(not sk, "directory listings in load_npz are used order-insensitively", load,
              enclosing(LS.pm, sk[0][0], ast.stmt) if sk else load.node,
              f"load_npz takes `{norm1(sk[0][0], 60)}` positionally from a directory listing" if sk else "")
+
+
+def check_reduced_shifts(ctx) -> None:
+    """R18.6 — every Rvectors(...) built by a system reader / constructor receives the Wannier centres in REDUCED coordinates
+    (`shifts_*_red=<…>_red`): a Cartesian array in that slot leaves the stored data and the bands intact but shifts every
+    R + τj − τi, so the reloaded system has a different Berry curvature."""
+    idx = ctx.index
+    r6 = ctx.rule("R18.6", "Rvectors are built with reduced-coordinate centre shifts", min_instances=8)
+    for f in idx.all_functions():
+        if not f.module.relpath.startswith("wannierberri/system/"):
+            continue
+        cs = [c for c in calls(f.node, "Rvectors") if call_name(c).split(".")[-1] == "Rvectors"]
+        if not cs:
+            continue
+        FS = Sem(idx, f)
+        FS.inline_helpers = False
+        for c in cs:
+            for kw_name, pos in (("shifts_left_red", 1), ("shifts_right_red", 2)):
+                v = next((k.value for k in c.keywords if k.arg == kw_name), None)
+                if v is None:
+                    continue
+                r6.instance(f"{f.short}: {kw_name}={norm1(v, 50)}")
+                ids = []
+                for root in (v, FS.resolve(v, FS.du.node_of_expr(c))):
+                    for n in ast.walk(root):
+                        if isinstance(n, ast.Attribute):
+                            ids.append(n.attr)
+                        elif isinstance(n, ast.Name):
+                            ids.append(n.id)
+                cart = [x for x in ids if x.endswith("_cart")]
+                red = [x for x in ids if x.endswith("_red")]
+                r6.check(not cart and bool(red), f"{kw_name} receives reduced coordinates", f, c,
+                         f"`{kw_name}={norm1(v, 60)}`: a quantity in Cartesian coordinates ({cart or 'no *_red quantity'}) is passed where reduced "
+                         f"coordinates are expected; stored matrices and bands are unchanged but the centre shifts of every R-vector are wrong",
+                         stmt=f"{kw_name}={norm1(v, 60)}")
 
 
 def check_pointgroup_serialisation(ctx) -> None:
@@ -749,6 +785,7 @@ SELFTEST = [
       "return dict(R=self.R * (-1 if self.Inv else 1), TR=self.TR)", "return dict(R=self.R, TR=self.TR)", "fire", "R18.5"),
     V("operation i saved under the prefix of operation i+1", PS, "ret[self._symm_dict_prefix(i) + k] = v", "ret[self._symm_dict_prefix(i + 1) + k] = v",
       "fire", "R18.5"),
+    V("hr reader builds Rvectors with Cartesian centres (seeded C18-m4)", HR, "        shifts_left_red=system.wannier_centers_red,", "        shifts_left_red=system.wannier_centers_cart,", "fire", "R18.6"),
     V("neutral: reader split via len()", HR, "nup = (data.shape[0] + 1) // 2", "nup = (len(data) + 1) // 2", "silent"),
     V("neutral: reader split spelled n - n//2", HR, "nup = (data.shape[0] + 1) // 2", "nup = data.shape[0] - data.shape[0] // 2", "silent"),
     V("neutral: as_dict built from a display and update()", PS,
